@@ -144,6 +144,22 @@ Proof. exact (Likelihood.ml_argmax_perm_invariant Phi a b sd ts k nd tn). Qed.
 
 End MaxLike.
 
+(* MaxLikeInf keeps the elementary line and reports the knee ND = _transition_cycles(SD) at the endurance limit SD its
+   optimiser returned (knee_at d SD).  For ANY returned SD the knee follows the cycle unit exactly and is independent of the
+   load unit; an error factor q of SD (optimiser noise) moves it by exactly q^slope = q^(-k_1).  This is what the harness
+   demands of MaxLikeInf's ND: the factor c up to rounding plus 2 k_1 |SD'/SD - 1|. *)
+Theorem maxlikeinf_knee_cycle_equivariant c d sd : 0 < c -> positive d -> finite_fractures d <> [] ->
+  knee_at (scale_cycles c d) sd = c * knee_at d sd.
+Proof. exact (Elem.knee_at_cycle_equivariant c d sd). Qed.
+
+Theorem maxlikeinf_knee_load_invariant c d sd : 0 < c -> 0 < sd -> positive d -> finite_fractures d <> [] ->
+  knee_at (scale_load c d) (c * sd) = knee_at d sd.
+Proof. exact (Elem.knee_at_load_equivariant c d sd). Qed.
+
+Theorem maxlikeinf_knee_follows_SD d sd q : 0 < sd -> 0 < q ->
+  knee_at d (q * sd) = knee_at d sd * Rpower q (fit_slope (finite_fractures d)).
+Proof. exact (Elem.knee_at_sd_sensitivity d sd q). Qed.
+
 (* the contract on sort is satisfiable, the hypotheses of the theorems are satisfiable *)
 Theorem sort_contract_satisfiable : exists sortR : list R -> list R,
   (forall l, Permutation (sortR l) l) /\ (forall l, Sorted Rle (sortR l)).
@@ -176,5 +192,8 @@ Print Assumptions likelihood_perm_invariant.
 Print Assumptions ml_argmax_load_equivariant_partial.
 Print Assumptions ml_argmax_cycle_equivariant_partial.
 Print Assumptions ml_argmax_perm_invariant_partial.
+Print Assumptions maxlikeinf_knee_cycle_equivariant.
+Print Assumptions maxlikeinf_knee_load_invariant.
+Print Assumptions maxlikeinf_knee_follows_SD.
 Print Assumptions sort_contract_satisfiable.
 Print Assumptions hypotheses_satisfiable.
